@@ -197,8 +197,9 @@ pub fn c15_silent_peer_expires_exactly_after_timeout() {
     let now: Time = kani::any();
     kani::assume(t0 >= 0 && t0 <= t1 && t1 <= now && now < (1 << 41));
     let r = XRefresher { config: XNodeCfg { peer_timeout } };
-    let mut a = XPeer { last_seen: 0, timeout: 0, peer_timeout: 300 };
-    let mut b = XPeer { last_seen: 0, timeout: 0, peer_timeout: 300 };
+    // what the peers advertise is arbitrary and must not matter: the expiry follows the OWN peer timeout
+    let mut a = XPeer { last_seen: 0, timeout: 0, peer_timeout: kani::any() };
+    let mut b = XPeer { last_seen: 0, timeout: 0, peer_timeout: kani::any() };
     MockTimeSource::set_time(t0);
     r.refresh_slice::<MockTimeSource>(&mut a);
     MockTimeSource::set_time(t1);
